@@ -1350,7 +1350,16 @@ func (ev *Ev) wellFormedRead(v Value) {
 	}
 	as := arraySort(SRef, SBool)
 	walkValue(v, "", func(path string, l Value) {
-		if l.S != SRef || l.K != vScalar || l.T == "nil" || strings.Contains(l.T, "$") || l.Typ == nil {
+		if l.S != SRef || l.K != vScalar || l.T == "nil" || strings.Contains(l.T, "$") {
+			return
+		}
+		if strings.HasSuffix(path, "#arr") {
+			// backing array of a slice read from memory
+			ev.u.famSort("alloc", as)
+			ev.st.assume(or(app("=", l.T, "nil"), app("select", ev.u.fam(ev.st, "alloc", as), l.T)))
+			return
+		}
+		if l.Typ == nil {
 			return
 		}
 		switch l.Typ.Underlying().(type) {
@@ -1394,9 +1403,10 @@ func (ev *Ev) readLV0(lv *LValue) Value {
 		if pre != "" {
 			pre += "."
 		}
+		ref, idx := u.resolveView(lv.Ref, lv.Idx)
 		return u.build(lv.Typ, pre, func(path string, s Sort, lt types.Type) string {
 			key, as := ev.elemFam(lv.ElemKey, path, s)
-			return app("select", app("select", u.fam(ev.st, key, as), lv.Ref), lv.Idx)
+			return app("select", app("select", u.fam(ev.st, key, as), ref), idx)
 		})
 	case lvMapElem:
 		pre := strings.Join(lv.Path, ".")
@@ -1509,12 +1519,13 @@ func (ev *Ev) assignLV(lv *LValue, v Value) {
 		})
 	case lvElem:
 		pre := strings.Join(lv.Path, ".")
+		ref, idx := u.resolveView(lv.Ref, lv.Idx)
 		walkValue(v, "", func(path string, l Value) {
 			p := joinPath(lv.Path, path)
 			_ = pre
 			key, as := ev.elemFam(lv.ElemKey, p, l.S)
 			cur := u.fam(ev.st, key, as)
-			u.setFam(ev.st, key, as, app("store", cur, lv.Ref, app("store", app("select", cur, lv.Ref), lv.Idx, l.T)))
+			u.setFam(ev.st, key, as, app("store", cur, ref, app("store", app("select", cur, ref), idx, l.T)))
 		})
 	case lvMapElem:
 		first := true
@@ -1748,15 +1759,31 @@ func (ev *Ev) sliceExpr(x *ast.SliceExpr) Value {
 		res.Comp["#arr"] = base.Comp["#arr"]
 		return res
 	}
+	// s[a:b] with a > 0: a view of the same backing array; element reads, writes and copy() through the view are redirected
+	// to the base at index + a (the view's own array name is never read)
 	arr := u.fresh("subarr", SRef)
 	res.Comp["#arr"] = scalar(arr, SRef, nil)
-	for _, lf := range u.leaves(elemT) {
-		key, as := ev.elemFam(typeKey(elemT), lf.path, lf.sort)
-		cur := u.fam(ev.st, key, as)
-		ev.st.assume(fmt.Sprintf("(forall ((i Int)) (! (= (select (select %s %s) i) (select (select %s %s) (+ i %s))) :pattern ((select (select %s %s) i))))", cur, arr, cur, base.Comp["#arr"].T, lo, cur, arr))
+	ev.st.assume(implies(not(app("=", base.Comp["#arr"].T, "nil")), not(app("=", arr, "nil"))))
+	if u.views == nil {
+		u.views = map[string]viewInfo{}
 	}
-	u.assumeNote("s[a:b] with a > 0 is modelled as a copy (aliasing with the original backing array is not tracked)")
+	u.views[arr] = viewInfo{base: base.Comp["#arr"].T, lo: lo}
 	return res
+}
+
+type viewInfo struct{ base, lo string }
+
+// resolveView maps (array, index) through re-slicing views to the underlying array.
+func (u *Unit) resolveView(ref, idx string) (string, string) {
+	for i := 0; i < 16; i++ {
+		v, ok := u.views[ref]
+		if !ok {
+			break
+		}
+		ref = v.base
+		idx = app("+", idx, v.lo)
+	}
+	return ref, idx
 }
 
 // ---- composite literals ----
